@@ -219,7 +219,15 @@ impl Expr {
             Expr::DotLookup { lhs, .. } => lhs.root_ident_if_const(),
             // `(get c).n += 1` and `(c or d).n += 1` write through c as well
             Expr::UnaryUnwrap { value, .. } => value.root_ident_if_const(),
-            Expr::NilEval { primary, .. } => primary.root_ident_if_const(),
+            Expr::NilEval { primary, fallback } => {
+                primary
+                    .root_ident_if_const()
+                    .or_else(|| match fallback {
+                        Value::Ident(ident) if ident.is_const() => Some(ident.name()),
+                        Value::MathExpr(inner) => inner.root_ident_if_const(),
+                        _ => None,
+                    })
+            }
             Expr::Value(Value::MathExpr(inner)) => inner.root_ident_if_const(),
             _ => None,
         }
